@@ -103,6 +103,10 @@ def build_weather(w) -> pd.DataFrame:
             tmax[i:j] += float(ev["delta"])
         elif t == "et0":
             et0[i:j] = float(ev["value"])
+    if w.get("lattice"):
+        # whole-degree temperatures: daily degree days are multiples of 0.5, so cumulative sums land EXACTLY on the
+        # (integer) thermal thresholds of the crop calendars now and then -- the boundary of every > / >= comparison
+        tmin, tmax = np.round(tmin), np.round(tmax)
     tmax = np.maximum(tmax, tmin + 0.5)
     # prepare_weather clips ReferenceET below at 0.1 (documented precondition against /0)
     et0 = np.clip(et0, 0.1, None)
